@@ -58,6 +58,14 @@ static int id_key(spif_obj_t o) { return cx_idt('k', o); }
 static int id_val(spif_obj_t o) { return cx_idt('v', o); }
 /* values are compared as objects: a url whose text is the label equals the str with that text, so one value in eight is a url
  * (and probes are of either class whatever the stored one is) */
+/* keys are looked up by object comparison, and a pair compares as its key: one probe in ten is a pair (key, some value that need not be
+ * the stored one) -- e.g. an element of an earlier get_pairs() used to look the entry up again */
+static spif_obj_t new_probe_key(int kid)
+{
+    spif_obj_t ko = cx_newt('k', kid);
+    if (vh_coin(10)) { spif_obj_t vo = cx_newt('v', (kid * 7 + 3) % NVAL); spif_obj_t p = SPIF_OBJ(spif_objpair_new_from_both(ko, vo)); cx_del_str(ko); cx_del_str(vo); vh_count("probe_keys_that_are_pairs", 1); return p; }
+    return ko;
+}
 static spif_obj_t new_val(int vid)
 {
     if (vh_coin(12)) { char b[16]; snprintf(b, sizeof b, "v%03d", vid); vh_count("values_of_a_class_derived_from_str", 1); return SPIF_OBJ(spif_url_new_from_ptr(SPIF_CHARPTR(b))); }
@@ -287,13 +295,13 @@ static void step(int pi, int op, int kid, int vid, int after_set, int lk, int np
                 }
                 break;
             case OP_GET:
-                ko = cx_newt('k', kid); got = id_val(SPIF_MAP_GET(mp, ko)); CX_DG(got);
+                ko = new_probe_key(kid); got = id_val(SPIF_MAP_GET(mp, ko)); CX_DG(got);
                 want = before.val[kid] >= 0 ? before.val[kid] : CX_NULLID;
                 CX_CHECK(got == want, on, k, "result", "get(k%03d) on %s returned %s, expected %s", kid, show_dict(&before), show_v(got), show_v(want));
                 cx_del_str(ko);
                 break;
             case OP_HAS_KEY:
-                ko = cx_newt('k', kid); b = SPIF_MAP_HAS_KEY(mp, ko); CX_DG(b);
+                ko = new_probe_key(kid); b = SPIF_MAP_HAS_KEY(mp, ko); CX_DG(b);
                 CX_CHECK(!!b == (before.val[kid] >= 0), on, k, "result", "has_key(k%03d) on %s returned %d", kid, show_dict(&before), (int) b);
                 cx_del_str(ko);
                 break;
@@ -309,7 +317,7 @@ static void step(int pi, int op, int kid, int vid, int after_set, int lk, int np
                 }
                 break;
             case OP_REMOVE:
-                ko = cx_newt('k', kid); x = SPIF_MAP_REMOVE(mp, ko); got = id_pair(x); CX_DG(got);
+                ko = new_probe_key(kid); x = SPIF_MAP_REMOVE(mp, ko); got = id_pair(x); CX_DG(got);
                 want = before.val[kid] >= 0 ? kid * 1000 + before.val[kid] : CX_NULLID;
                 CX_CHECK(got == want, on, k, "result", "remove(k%03d) on %s returned %s, expected %s", kid, show_dict(&before), show_pair(got), show_pair(want));
                 if (x) spif_objpair_del(SPIF_OBJPAIR(x));
